@@ -246,7 +246,15 @@ void harness(void)
 		case 2: ro = 0; break;
 		case 3: ro = indent(rr); break;
 		case 4: if (cnt) asserted = 0; ro = nch[rr] ? nch[rr] - 1 : 0; break;
-		case 5: ro = offat(rr, c - 1); break;
+		case 5:
+#ifdef OPER
+			/* a column beyond the last character: as a motion it ends on the last character; what an operator takes
+			 * then (up to it, or through the end of the line as neatvi does) is left open by the reference */
+			if (nch[rr] && c - 1 > colof(rr, nch[rr] - 1) + (L[rr][nch[rr] - 1].wid ? L[rr][nch[rr] - 1].wid : 8 - (colof(rr, nch[rr] - 1) & 7)) - 1)
+				asserted = 0;
+#endif
+			ro = offat(rr, c - 1);
+			break;
 		case 6: rr = rr + c >= NLN ? NLN - 1 : rr + c; ro = offat(rr, col); break;
 		case 7: rr = rr - c < 0 ? 0 : rr - c; ro = offat(rr, col); break;
 		case 8: rr = cnt ? (c - 1 >= NLN ? NLN - 1 : c - 1) : NLN - 1; ro = indent(rr); break;
